@@ -1,3 +1,4 @@
+import PbBss.Proofs.EmSlices
 import PbBss.Proofs.TensorProof
 import PbBss.Proofs.TensorEmProof
 /-! # C06 — leading (frequency/batch) axes are independent problems
@@ -707,5 +708,59 @@ example :
     (fixLead (mapCore 2 2 [2, 2] tr t) 3 [2]).get [1, 0, 1] = 2110 ∧
     (mapCore 2 2 [2, 2] tr (fixLead t 3 [2])).get [1, 0, 1] = 2110 := by
   decide
+
+
+/-! ## Non-interference on the executable EM model `Em.fit` (`PbBss/Proofs/EmSlices.lean`)
+
+The theorems above are about the tensor-layout transcriptions; the same property on the EM model of C02/C03 with the `sliced`
+family (independent component parameters per leading index, weights tied within a slice): whatever the other slices
+contain, slice `f₀` gets the result it would get alone — for every component family whose one-component fit ignores
+observations of weight 0 (`MstepLocal`: proved for the spherical / diagonal / full Gaussian, vMF, Watson, cACG families and
+preserved by `sliced` and `prodFamily`), every weight rule, every number of iterations. -/
+section em_model
+open PbBss.Em PbBss.EmProof
+variable {Θ Y : Type} {K N F : Nat}
+
+/-- two stacked problems that agree on slice `f₀` (same bins everywhere; same values, saliencies and start affiliations on
+`f₀`; anything else elsewhere) have the same slice-`f₀` components, the same weights and the same posteriors on `f₀` -/
+theorem em_sliced_fit_noninterference (tiny : ℝ) (fam : Family Θ Y ℝ) (hloc : MstepLocal fam) (rule : WeightRule)
+    (tie : Tying N) (eps : ℝ) (f₀ : Fin F) (y y' : Fin N → Fin F × Y) (s s' : Fin N → ℝ)
+    (γ₀ γ₀' : Fin (K+1) → Fin N → ℝ)
+    (hbin : ∀ n, (y n).1 = (y' n).1) (hval : ∀ n, (y n).1 = f₀ → (y n).2 = (y' n).2)
+    (hsal : ∀ n, (y n).1 = f₀ → s n = s' n) (hγ : ∀ k n, (y n).1 = f₀ → γ₀ k n = γ₀' k n)
+    (htie : tie.uniform = true ∨ ∀ n m, (y n).1 = f₀ → (y m).1 ≠ f₀ → rd tie.grp n ≠ rd tie.grp m) (n : Nat) :
+    (∀ k, rd ((fit tiny (sliced fam) rule tie eps s y n γ₀).c k) f₀
+        = rd ((fit tiny (sliced fam) rule tie eps s' y' n γ₀').c k) f₀)
+    ∧ (∀ k m, (y m).1 = f₀ → (fit tiny (sliced fam) rule tie eps s y n γ₀).w k m
+        = (fit tiny (sliced fam) rule tie eps s' y' n γ₀').w k m)
+    ∧ (∀ k m, (y m).1 = f₀ → eStep tiny (sliced fam) (fit tiny (sliced fam) rule tie eps s y n γ₀) y k m
+        = eStep tiny (sliced fam) (fit tiny (sliced fam) rule tie eps s' y' n γ₀') y' k m) :=
+  EmProof.sliced_fit_noninterference tiny fam hloc rule tie eps f₀ y y' s s' γ₀ γ₀' hbin hval hsal hγ htie n
+
+/-- … and they are those of the single-slice problem fitted with the plain (un-sliced) family -/
+theorem em_sliced_fit_eq_single (tiny : ℝ) (fam : Family Θ Y ℝ) (hloc : MstepLocal fam) (rule : WeightRule)
+    (tie : Tying N) (eps : ℝ) (f₀ : Fin F) (y : Fin N → Fin F × Y) (s : Fin N → ℝ) (γ₀ γ₀' : Fin (K+1) → Fin N → ℝ)
+    (hγ : ∀ k n, (y n).1 = f₀ → γ₀ k n = γ₀' k n)
+    (htie : tie.uniform = true ∨ ∀ n m, (y n).1 = f₀ → (y m).1 ≠ f₀ → rd tie.grp n ≠ rd tie.grp m) (n : Nat) :
+    (∀ k, rd ((fit tiny (sliced fam) rule tie eps s y n γ₀).c k) f₀
+        = (fit tiny fam rule tie eps (aloneSal f₀ y s) (fun n => (y n).2) n γ₀').c k)
+    ∧ (∀ k m, (y m).1 = f₀ → (fit tiny (sliced fam) rule tie eps s y n γ₀).w k m
+        = (fit tiny fam rule tie eps (aloneSal f₀ y s) (fun n => (y n).2) n γ₀').w k m)
+    ∧ (∀ k m, (y m).1 = f₀ → eStep tiny (sliced fam) (fit tiny (sliced fam) rule tie eps s y n γ₀) y k m
+        = eStep tiny fam (fit tiny fam rule tie eps (aloneSal f₀ y s) (fun n => (y n).2) n γ₀')
+            (fun n => (y n).2) k m) :=
+  EmProof.sliced_fit_eq_single tiny fam hloc rule tie eps f₀ y s γ₀ γ₀' hγ htie n
+
+/-- the locality hypothesis holds for every family of `Em.lean` (here: cACG and the GCACGMM composite) -/
+theorem em_mstep_local_cacg (D : Nat) (eigh : Tab (D+1) (Tab (D+1) ℂ) → Tab (D+1) (Tab (D+1) ℂ) × Tab (D+1) ℝ)
+    (nrm : CovNorm) (floor tiny : ℝ) : MstepLocal (cacgFamily D eigh nrm floor tiny) :=
+  cacgFamily_local D eigh nrm floor tiny
+
+theorem em_mstep_local_gcacgmm (F D E : Nat) (eigh : Tab (D+1) (Tab (D+1) ℂ) → Tab (D+1) (Tab (D+1) ℂ) × Tab (D+1) ℝ)
+    (nrm : CovNorm) (floor tiny tinyG log2pi : ℝ) :
+    MstepLocal (prodFamily (sliced (F := F) (cacgFamily D eigh nrm floor tiny)) (sphFamily E tinyG log2pi)) :=
+  prodFamily_local _ _ (sliced_local _ (cacgFamily_local D eigh nrm floor tiny)) (sphFamily_local E tinyG log2pi)
+
+end em_model
 
 end PbBss.C06
